@@ -285,9 +285,17 @@ func (ex *Exec) intrinsic(f *ssa.Function) intrinsicFn {
 		}
 	case "bytes.Split":
 		return func(ex *Exec, s *State, instr ssa.Instruction, args []Val) callOut {
-			// trusted, uninterpreted: some slice of sub-slices
+			// trusted (A-SPLIT): a slice of sub-slices with one part more than
+			// there are separators in the argument. The number of separators
+			// (sep_count) is an uninterpreted function of the argument slice as
+			// the memory is at the call; contracts name it sepCount(x). Which
+			// bytes each part holds is not modelled.
 			r := s.declare(ex.g.fresh("split"), SSlice)
 			ex.assumeWF(s, r, nil)
+			cnt := App(SBV(64), "sep_count", ex.asScalar(args[0]))
+			s.assume(BVUlt(cnt, BVLit(1<<40, 64)))
+			s.assume(Eq(SlLen(r), BVAdd(cnt, BVLit(1, 64))))
+			ex.usedAssume["A-SPLIT: bytes.Split(s, sep) returns exactly (number of occurrences of sep in s)+1 parts; the contents of the parts are not modelled"] = true
 			return callOut{v: Scalar{r}}
 		}
 	case "(*sync.Map).Load":
